@@ -15,7 +15,7 @@ MIN_CASES_PER_SHARD = 40
 CASE_TIMEOUT = 40
 RULE = ("one case = generated map x trace x configuration (both families, edge-only and node-and-edge states, non-emitting on in 70 %, "
         "avoid_goingback on/off, widths, separate noise for non-emitting states, length factor) x history of match / extend / widen calls; 35 % "
-        "are chain maps with every 2nd-4th node observed so that non-emitting states are on the best path. Non-trivial = best path with >= 3 "
+        "are chain maps with every 2nd-4th node observed so that non-emitting states are on the best path; 15 % street-scale latitude-longitude maps, 12 % maps with linked parallel edges, 25 % histories starting with another trace on the same matcher object. Non-trivial = best path with >= 3 "
         "states; distinct = hash of the case")
 ANCHORS = [("leuvenmapmatching/matcher/base.py", "BaseMatching.next"),
            ("leuvenmapmatching/matcher/base.py", "BaseMatching._update_inner"),
@@ -111,4 +111,4 @@ def check_case(ctx, case):
 TECHNIQUE = "runtime monitoring: independent re-scoring of the reported best path (documented formulas) after every call of generated operation histories"
 LEVEL_TEXT = ("{Q} (quick) / {T} (thorough) operation histories; every reported best path (~2 per history, ~6 states each, non-emitting states on the "
               "path in a measured fraction) is re-scored with the documented model and compared on logprob, length and carried distances. Held-on-observed.")
-LEVEL_NOTE = "Trusted: rescoring.py (written from the doc-strings; validated by mutants: min->sum, wrong noise, forgotten d_s/d_o, stale predecessor)."
+LEVEL_NOTE = "A monitor-side logical clock on lattice entries (last write / last expansion) classifies the one recorded mechanism (stale child after in-place replacement in a later round). Trusted: rescoring.py (written from the doc-strings; validated by mutants: min->sum, wrong noise, forgotten d_s/d_o, stale predecessor)."
